@@ -2,6 +2,27 @@
 From VRP Require Import Base.Tac Model.Population.
 From Coq Require Import Sorted.
 
+Section Pure.
+Context {ind : Type}.
+(* selection *)
+Lemma pick_In (l : list ind) i y : In y (pick l i) -> In y l.
+Proof. unfold pick. destruct (nth_error l i) eqn:E; cbn; [|tauto]. intros [<-|[]]. eapply nth_error_In; eauto. Qed.
+Lemma e_select_In (e : elitism ind) draws y : In y (e_select e draws) -> In y (e_inds e).
+Proof.
+  unfold e_select. destruct (e_inds e) as [|x l] eqn:E; [cbn; tauto|].
+  intros H. apply in_flat_map in H. destruct H as (i & _ & H). eapply pick_In; eauto.
+Qed.
+Lemma e_select_hd (e : elitism ind) draws b : hd_error (e_inds e) = Some b -> (1 <= e_sel_size e)%nat ->
+  hd_error (e_select e draws) = Some b.
+Proof.
+  unfold e_select, e_indices. destruct (e_inds e) as [|x l] eqn:E; cbn [hd_error]; [discriminate|]. intros [= ->] N.
+  destruct (e_sel_size e) as [|n]; [lia|]. cbn [firstn flat_map pick nth_error app hd_error]. reflexivity.
+Qed.
+Lemma slow_size_pos s r : (1 <= slow_size s r)%nat.
+Proof. unfold slow_size. lia. Qed.
+
+End Pure.
+
 Section P.
 Context {ind : Type}.
 Variable cmp : ind -> ind -> comparison.
@@ -132,23 +153,6 @@ Proof.
   - intros z Hz; auto.
   - intros x Hx. destruct (C x Hx) as [[]|(b0 & Hb0 & Hle)]. eauto.
 Qed.
-
-(* selection *)
-Lemma pick_In (l : list ind) i y : In y (pick l i) -> In y l.
-Proof. unfold pick. destruct (nth_error l i) eqn:E; cbn; [|tauto]. intros [<-|[]]. eapply nth_error_In; eauto. Qed.
-Lemma e_select_In (e : elitism ind) draws y : In y (e_select e draws) -> In y (e_inds e).
-Proof.
-  unfold e_select. destruct (e_inds e) as [|x l] eqn:E; [cbn; tauto|].
-  intros H. apply in_flat_map in H. destruct H as (i & _ & H). eapply pick_In; eauto.
-Qed.
-Lemma e_select_hd (e : elitism ind) draws b : hd_error (e_inds e) = Some b -> (1 <= e_sel_size e)%nat ->
-  hd_error (e_select e draws) = Some b.
-Proof.
-  unfold e_select, e_indices. destruct (e_inds e) as [|x l] eqn:E; cbn [hd_error]; [discriminate|]. intros [= ->] N.
-  destruct (e_sel_size e) as [|n]; [lia|]. cbn [firstn flat_map pick nth_error app hd_error]. reflexivity.
-Qed.
-Lemma slow_size_pos s r : (1 <= slow_size s r)%nat.
-Proof. unfold slow_size. lia. Qed.
 
 Lemma e_add_all_fields (e : elitism ind) ys :
   e_max (e_add_all cmp dedup e ys) = e_max e /\ e_sel (e_add_all cmp dedup e ys) = e_sel e /\
@@ -491,17 +495,17 @@ Proof. intros N H. rewrite firstn_hd; auto. Qed.
 Lemma select_nonempty ops p draws hits nodes : run cmp dedup ops p0 = Some p ->
   (1 <= selection_size p0)%nat -> (0 < size p)%nat -> select p draws hits nodes <> [].
 Proof.
-  intros H S Z. pose proof (reach_inv _ _ H) as I. destruct (run_cfg cmp dedup TP ops _ _ H) as (_ & _ & Sz).
-  rewrite <- Sz in S. clear Sz. unfold size in Z.
+  intros H S Hz. pose proof (reach_inv _ _ H) as I. destruct (run_cfg cmp dedup TP ops _ _ H) as (_ & _ & Sz).
+  rewrite <- Sz in S. clear Sz. unfold size in Hz.
   assert (NE : forall (l : list ind) b, hd_error l = Some b -> l <> []) by (intros [|? ?] ? ?; cbn in *; congruence).
   destruct p as [g|e|r]; cbn [inv select ranked selection_size] in *.
-  - unfold g_select, g_ranked in *. destruct (g_best g); cbn in Z; [|lia].
+  - unfold g_select, g_ranked in *. destruct (g_best g); cbn in Hz; [|lia].
     destruct (g_sel g); [lia|]. cbn. discriminate.
-  - destruct (e_inds e) as [|b l] eqn:E; cbn in Z; [lia|].
+  - destruct (e_inds e) as [|b l] eqn:E; cbn in Hz; [lia|].
     apply (NE _ b). apply e_select_hd; [rewrite E; reflexivity|].
     unfold e_sel_size. destruct (e_speed e) as [[| |rr]|]; try lia. apply slow_size_pos.
-  - destruct I as (Ei & _ & Es & Esp & C2 & Ph). unfold r_ranked in Z.
-    destruct (e_inds (r_elite r)) as [|b l] eqn:E; cbn in Z; [lia|].
+  - destruct I as (Ei & _ & Es & Esp & C2 & Ph). unfold r_ranked in Hz.
+    destruct (e_inds (r_elite r)) as [|b l] eqn:E; cbn in Hz; [lia|].
     assert (Hs : hd_error (e_select (r_elite r) draws) = Some b).
     { apply e_select_hd; [rewrite E; reflexivity|]. unfold e_sel_size. rewrite Esp. lia. }
     unfold r_select. destruct (r_phase r) as [sols|sel net|sel].
